@@ -5,6 +5,7 @@ import SfVerif.Lemmas.Codes
 import SfVerif.Lemmas.Lazy7
 import SfVerif.Lemmas.Ctx5
 import SfVerif.Lemmas.DocLink7
+import SfVerif.Lemmas.GenMarkers
 /-! C01 — lazy reads equal eager decoding for every document and access history. -/
 namespace SfVerif.Props.C01
 open SfVerif SfVerif.Gen
@@ -281,5 +282,11 @@ example : WF #[0x92, 0x91, 1, 0x81, 0xa1, 0x61, 2] ∧
       specChild, specKeyPos, specProp, keyEq, eagerFuel, skip, skipN, skipPairs, readHdr, hdrOfMarker, hdrFix,
       arrHdr, mapHdr, strHdr, mkNode, Ctx.encodeNode, RAns.handles, ROp.handle?, Scope.handle?, ROp.nextRoots,
       Spec.litAnswer]
+
+/-- **tie by translation**: the header reader of the model is equal to the dispatch regenerated,
+    arm by arm, from the `match marker` of `LazyValueRef::new` (provider/src/read/lazy_value_ref.rs);
+    the cursor's fixed-width readers are checked for their width, bounds check and byte order -/
+theorem C01_header_reader_is_the_source_text (b : Bytes) (p m : Nat) : hdrOfMarkerGen b p m = hdrOfMarker b p m :=
+  gen_hdrOfMarker_eq b p m
 
 end SfVerif.Props.C01
